@@ -48,7 +48,12 @@ def main():
         with open(args.replay) as f:
             rec = json.load(f)
         try:
-            mod.replay(rec["case"], rec.get("sub"))
+            try:
+                mod.replay(rec["case"], rec.get("sub"))
+            except (common.Violation, common.HarnessError):
+                raise
+            except Exception as exc:  # a crash out of repository code is the recorded finding itself
+                raise common.crash_violation(exc, rec["case"], "crash") from exc
         except common.Violation as v:
             known = common.match_known(common.load_known(prop), v.signature)
             if known:
